@@ -303,11 +303,16 @@ class Indicator(ABC):
 
     def purge(self):
         """Remove this indicator value from all Candles"""
-        self._candles.purge(
-            {self.name}
-            | {indicator.name for indicator in self.sub_indicators.values()}
-            | {indicator.name for indicator in self.managed_indicators.values()}
-        )
+        self._candles.purge(self._nested_names())
+
+    def _nested_names(self) -> set:
+        """Names of this indicator and of its sub/managed indicators at any depth"""
+        names = {self.name}
+        for indicator in self.sub_indicators.values():
+            names |= indicator._nested_names()
+        for indicator in self.managed_indicators.values():
+            names |= indicator._nested_names()
+        return names
 
     def recalculate(self):
         """Re-calculate this indicator value for all Candles"""
